@@ -2,6 +2,7 @@ package seams
 
 import (
 	"context"
+	"fmt"
 	"io"
 	"sort"
 	"sync"
@@ -33,12 +34,27 @@ type PS struct {
 	readers   map[string]int
 	writers   map[string]bool
 	LockWaits int
+	alias     map[string]int
 
 	mu    sync.Mutex
 	Calls map[string]int
 }
 
-func (p *PS) lockReason(id partstore.PartId) string { return "partlock:" + p.Name + ":" + id.String() }
+// lockReason names the lock of a part by the order in which this seam first
+// saw the id (part ids are random; the event log must not contain them).
+func (p *PS) lockReason(id partstore.PartId) string {
+	p.mu.Lock()
+	defer p.mu.Unlock()
+	if p.alias == nil {
+		p.alias = map[string]int{}
+	}
+	n, ok := p.alias[id.String()]
+	if !ok {
+		n = len(p.alias) + 1
+		p.alias[id.String()] = n
+	}
+	return fmt.Sprintf("partlock:%s:p%d", p.Name, n)
+}
 
 func (p *PS) acquire(id partstore.PartId, write bool) {
 	if !p.LockModel {
@@ -158,14 +174,18 @@ func (p *PS) GetPart(ctx context.Context, tx database.Tx, partId partstore.PartI
 	if err := p.Faults.Check("ps.get:" + p.Name); err != nil {
 		return nil, err
 	}
-	p.acquire(partId, false)
+	// exclusive: the erasure-coding store upgrades a reader to its exclusive
+	// lock when a shard needs healing, so two concurrent readers of one part may
+	// contend on the real lock; the model serialises them (limit: reader/reader
+	// overlap on one erasure-coded part is not explored)
+	p.acquire(partId, true)
 	rc, err := p.Inner.GetPart(ctx, tx, partId)
 	if err != nil {
-		p.release(partId, false)
+		p.release(partId, true)
 		return nil, err
 	}
 	if p.LockModel {
-		rc = &lockedReadCloser{ReadCloser: rc, rel: func() { p.release(partId, false) }}
+		rc = &lockedReadCloser{ReadCloser: rc, rel: func() { p.release(partId, true) }}
 	}
 	if p.Mutate != nil {
 		b, rerr := io.ReadAll(rc)
